@@ -18,7 +18,7 @@ LEVEL = "exploration"
 TECHNIQUE = "single-violation mutation against an independent rule checker + complete boundary enumeration"
 RULE = (
     "Three parts. 'valid': units of the common generator (nesting, imports incl. transitive and nested cross-file references, "
-    "empty enums) decorated with VALID options (max_bytes == nbytes / larger / 0, the four documented file options) and pushed "
+    "empty enums; schema text in generated styles: indentation, semicolons, comments whose text is special in a target language, trailing comments, CR LF, no final newline) decorated with VALID options (max_bytes == nbytes / larger / 0, the four documented file options) and pushed "
     "onto boundaries (width 64, field number 255, enum value 2^w-1, capacity 65535, a message padded to exactly 65535 bits "
     "prefix included); oracle: bpverif.violations.problems() (my rule checker over my model) finds nothing => parse() of every "
     "file returns, and on a sample main()/the real CLI exit 0 and write the output files. 'invalid': the same units with exactly "
